@@ -28,7 +28,8 @@ RULE = ('One case = one generated executable statechart (real Python code: count
         'several when/then blocks incl. blocks that produce no macro step); about half of the assertions are false. The child '
         'process runs execute_bdd; the parent re-executes on a plain Interpreter and computes each fact. Also: sismic.testing '
         'predicates vs a direct reading of random MacroStep lists. Non-trivial = distinct (then-kind, truth value) pairs; all 17 '
-        'kinds x {true,false} must occur.')
+        'kinds x {true,false} must occur.  Also: two feature files with equally named scenarios in one run, list literals as parameters '
+        'that the chart keeps and mutates, a when step of 300-2500 macro steps.')
 ASSUMPTIONS = ['not judged: then-steps naming a state that does not exist, map_action/map_assertion, notify-events counted as fired',
                'behave 1.3.3 as installed; statuses read from its JSON formatter']
 THEN_KINDS = ['state entered', 'state not entered', 'state exited', 'state not exited', 'state active', 'state not active',
